@@ -34,16 +34,38 @@ def check_case(ctx, case):
     xs = case["x"]
     qs = case["q"]
     n = len(xs)
-    data = numpy.array(xs, dtype=float if case["dtype"] == "float" else int) if case["container"] == "ndarray" else list(xs)
+    if case.get("order") == "sorted":
+        xs = sorted(xs)
+    elif case.get("order") == "reversed":
+        xs = sorted(xs, reverse=True)
+    cont = case["container"]
+    if cont == "list":
+        data = list(xs)
+    elif cont == "tuple":
+        data = tuple(xs)
+    else:
+        data = numpy.array(xs, dtype=float if case["dtype"] == "float" else int)
+        if cont == "readonly":
+            data.setflags(write=False)
+        elif cont == "bigendian":
+            data = data.astype(data.dtype.newbyteorder(">"))
+        elif cont == "strided":
+            b = numpy.zeros(2 * n + 1, dtype=data.dtype)
+            b[1::2] = data
+            data = b[1::2]
+    if cont != "ndarray" or case.get("order") or case.get("qtype"):
+        ctx.count("representation:%s/%s/%s" % (cont, case.get("order", "as_is"), case.get("qtype", "python")))
+    qwrap = {"np_scalar": lambda v: numpy.float64(v) if isinstance(v, float) else numpy.int64(v), "zero_d": lambda v: numpy.array(v)}.get(case.get("qtype"), lambda v: v)
+    before = [x for x in xs]
     prev_ge, prev_le = None, None
     le_list = []
     for v in sorted(qs):
         ge = Fraction(sum(1 for x in xs if x >= v), n)
         le = Fraction(sum(1 for x in xs if x <= v), n)
         eq = Fraction(sum(1 for x in xs if x == v), n)
-        o1 = call(stats.greater_equal_ecdf, data, v)
-        o2 = call(stats.less_equal_ecdf, data, v)
-        o3 = call(stats.get_quantiles, data, v)
+        o1 = call(stats.greater_equal_ecdf, data, qwrap(v))
+        o2 = call(stats.less_equal_ecdf, data, qwrap(v))
+        o3 = call(stats.get_quantiles, data, qwrap(v))
         ctx.count("queries")
         for o, name in ((o1, "greater_equal_ecdf"), (o2, "less_equal_ecdf"), (o3, "get_quantiles")):
             if not o.ok:
@@ -64,6 +86,8 @@ def check_case(ctx, case):
                 ctx.violation("not_monotone", {"v": v})
             prev_ge, prev_le = float(o1.value), float(o2.value)
         le_list.append(float(le))
+    if ctx.normalize("sample_after_the_queries", lambda: [x for x in numpy.asarray(data).tolist()]) != before:
+        ctx.violation("callers_sample_modified", {"n": n})       # the sample is an input; a query must leave it as it was
     vals = sorted(qs)
     ob = call(stats.binned_ecdf, data, vals)
     if not ob.ok:
@@ -131,12 +155,19 @@ def run(ctx):
         s = sorted(set(xs))
         qs = [s[0] - 1] + s + [s[-1] + 1] + ([] if huge else [(a + b) / 2 for a, b in zip(s, s[1:])])
         extra = [] if huge else draw(st.lists(st.floats(-1e6, 1e6, allow_nan=False), max_size=3))
-        return {"x": xs, "q": sorted(set(qs + extra))[:40], "dtype": dtype,
-                "container": draw(st.sampled_from(["list", "ndarray"]))}
+        case = {"x": xs, "q": sorted(set(qs + extra))[:40], "dtype": dtype,
+                "container": draw(st.sampled_from(["list", "ndarray", "ndarray", "tuple", "readonly", "bigendian", "strided"]))}
+        order = draw(st.sampled_from([None, None, "sorted", "reversed"]))      # samples that arrive already ordered
+        if order:
+            case["order"] = order
+        qtype = draw(st.sampled_from([None, None, "np_scalar", "zero_d"]))
+        if qtype and not huge:
+            case["qtype"] = qtype
+        return case
 
     def check_big(c, case):
         check_case(c, case)
         c.record({"n": len(case["x"]), "alphabet": sorted(set(case["x"])), "q": case["q"], "dtype": case["dtype"],
-                  "container": case["container"], "head": case["x"][:20]}, nontrivial(case), "sampled")
+                  "container": case["container"], "order": case.get("order"), "qtype": case.get("qtype"), "head": case["x"][:20]}, nontrivial(case), "sampled")
 
-    ctx.drive(st.composite(big)(), ctx.n(40, 300), fn=check_big)
+    ctx.drive(st.composite(big)(), ctx.n(60, 400), fn=check_big)
